@@ -89,6 +89,21 @@ def cases(tier, seed):
                     yield {"pos": pos, "l": list(lab), "op": "+", "r": list(x), "names": "hexlike"}
                     yield {"pos": pos, "l": list(lab), "op": "-", "r": list(x), "names": "hexlike"}
                     yield {"pos": pos, "l": list(x), "op": "+", "r": list(lab), "names": "hexlike"}
+        # results that land exactly on and next to the width limits of the field (127/128/129, 255/256, -128/-129, 15/16/17), reached from
+        # short terms (two hex digits, small decimals, EQU constants written that way)
+        if pos in ("imm8", "imm16", "ext", "extind", "idx", "idxind", "pcr"):
+            short = [("lit", 127, "hex2", None), ("lit", 123, "dec", None), ("lit", 64, "hex2", None), ("lit", 15, "dec", None), ("lit", 250, "hex2", None),
+                     ("equ", 127, "hex2", "before"), ("equ", 64, "dec", "after"), ("equ", 130, "hex2", "before")]
+            small = [("lit", 1, "dec", None), ("lit", 2, "dec", None), ("lit", 5, "hex2", None), ("lit", 6, "dec", None), ("equ", 1, "dec", "before")]
+            for a in short:
+                for b in small:
+                    for op in ("+", "-", "*"):
+                        yield {"pos": pos, "l": list(a), "op": op, "r": list(b), "edge": True}
+                        if op == "+":
+                            yield {"pos": pos, "l": list(b), "op": op, "r": list(a), "edge": True}
+            for a in (("lit", 1, "dec", None), ("lit", 5, "hex2", None), ("equ", 1, "dec", "before")):
+                for b in (("lit", 129, "dec", None), ("lit", 130, "hex2", None), ("lit", 133, "dec", None), ("equ", 130, "hex2", "before"), ("equ", 134, "dec", "after")):
+                    yield {"pos": pos, "l": list(a), "op": "-", "r": list(b), "edge": True}
         # the label sits on the very first statement of the program (statement index 0, address 0: no ORG, no EQU before it)
         if pos in ("fcb", "fdb", "rmb", "equ"):
             continue        # these positions do not evaluate symbols at all (KF-C04-1, KF-C04-2): the layout adds nothing there
